@@ -7,6 +7,7 @@ import CanVerif.Model.DbcAttr
 import CanVerif.Model.DbcComment
 import CanVerif.Model.DbcTables
 import CanVerif.Model.DbcFile
+import CanVerif.Model.DbcPost
 open Lean CanVerif CanVerif.Dbc
 
 namespace D05
@@ -294,6 +295,19 @@ def handle (op : String) (c i : Json) : Except String (Json × String) := do
       pure ({ bo := ← boOf (← J.key fj "bo"), sigs := sigs, moreSenders := (← J.strList (← J.key fj "more")).map String.toList,
               comment := ← optStr (← J.key fj "comment") } : WFrame)
     pure (J.obj [("core", J.ofStrList ((writeCore fs).map String.ofList))], "ok")
+  | "post" =>
+    -- i = {"lines": the lines of a file, "final": the projection of the matrix dbc.load returns (names, senders, receivers, comments,
+    -- attributes that are neither carriers nor ENUM)}
+    if !J.isNull (J.keyD i "skipped" Json.null) then return (J.obj [], "ok")
+    let lines ← J.strList (← J.key i "lines")
+    let pm := postProcess (readFile (lines.map String.toList))
+    let psigJ (s : PSig) : Json := J.obj [("name", strJ s.name), ("receivers", J.ofStrList (s.receivers.map String.ofList)),
+      ("attrs", pairsJ s.attrs), ("comment", optStrJ s.comment)]
+    let pframeJ (f : PFrame) : Json := J.obj [("id", J.ofNat f.key.1), ("ext", .bool f.key.2), ("name", strJ f.name),
+      ("tx", J.ofStrList (f.tx.map String.ofList)), ("rx", J.ofStrList (f.rx.map String.ofList)), ("attrs", pairsJ f.attrs),
+      ("comment", optStrJ f.comment), ("sigs", J.ofList (f.sigs.map psigJ))]
+    pure (J.obj [("final", J.obj [("ecus", J.ofStrList (pm.ecus.map String.ofList)), ("frames", J.ofList (pm.frames.map pframeJ)),
+      ("free", J.ofList (pm.free.map psigJ)), ("attrs", pairsJ pm.attrs)])], "ok")
   | "whole" =>
     -- i = {"lines": the lines of a file, "snap": the matrix the real reader has built when its line loop ends (before the post-processing)}
     if !J.isNull (J.keyD i "skipped" Json.null) then return (J.obj [], "ok")
